@@ -185,9 +185,13 @@ def _fold_integrate(f):
             def run(decide, dim=dim, kind=kind):
                 shape = tuple([Opaque("int", f"S{k}") for k in range(dim)] + [Opaque("int", "TIME"), Opaque("int", "COMP")])
                 arr = Opaque("ndarray", "DATA", {"shape": shape, "size": Opaque("int", "SIZE"), "ndim": dim + 2})
-                data = arr if kind == "array" else Obj("img", {"__class__": "Image", "img": arr, "shape": shape})
+                # an image brings metadata of its own (tokens IMGMETA_*): nothing of it may end up in the integral
+                imeta = {"voxel_size": [Opaque("float", f"IMGMETA_voxel_size{k}") for k in range(dim)], "dimensions": [Opaque("float", f"IMGMETA_dimensions{k}") for k in range(dim)],
+                         "num_voxels": [Opaque("int", f"IMGMETA_num_voxels{k}") for k in range(dim)], "origin": Opaque("coord", "IMGMETA_origin"), "space_dim": dim,
+                         "voxel_volume": Opaque("float", "IMGMETA_voxel_volume")}
+                data = arr if kind == "array" else Obj("img", {"__class__": "Image", "img": arr, "shape": shape, **imeta})
                 so = Obj("self", {"__class__": "Geometry", "space_dim": dim, "num_voxels": [Opaque("int", f"N{k}") for k in range(dim)],
-                                  "dimensions": [Opaque("float", f"D{k}") for k in range(dim)],
+                                  "dimensions": [Opaque("float", f"D{k}") for k in range(dim)], "voxel_size": [Opaque("float", f"H{k}") for k in range(dim)],
                                   "voxel_volume": Opaque("float", "VV"), "cached_voxel_volume": Opaque("float", "CVV")})
                 fo = Folder(symbolic=True)
                 fo.decider = decide
@@ -200,8 +204,11 @@ def _fold_integrate(f):
                 return None
             for log, r, err in paths:
                 if err is not None:
-                    if isinstance(err, Raised):
+                    if isinstance(err, Raised) and err.name != "AttributeError":
                         continue  # a path that rejects its input
+                    if isinstance(err, Raised):
+                        undecided = True   # an attribute the stand-ins do not have: nothing known about this path
+                        continue
                     return None
                 # a path that assumed `spatial data shape == num_voxels` is judged with S = N
                 native = False
@@ -229,6 +236,12 @@ def _fold_integrate(f):
                         return (False, f"{where}: the integral is {t[:140]}, which depends on {what}: every time step / component is scaled by the payload extents")
                 if "CVV" in t:
                     return (False, f"{where}: the integral uses the cached voxel volume of an earlier call: {t[:140]}")
+                import re as _re
+                meta_reads = sorted(set(_re.findall(r"IMGMETA_([a-z_]+?)\d*\b", t)))
+                if kind == "image" and meta_reads:
+                    return (False, f"{where}: the integral is {t[:160]}, which reads the image's own metadata ({', '.join(meta_reads)}): the value is the sum of data times the "
+                            "geometry's effective voxel volume, rescaled by the ratio of voxel counts only -- an image whose metadata differ from the geometry's (default unit "
+                            "dimensions, other units) integrates to something else than its array")
                 if "VV" not in t and "DATA" in t:
                     return (False, f"{where}: the integral is {t[:140]}, which does not contain the geometry's voxel volume: depth / porosity folded into it by the weighted geometries are dropped")
                 undecided = True   # no named contradiction on this path: the other paths are still looked at
@@ -427,7 +440,40 @@ def _integrate_uses_resize(m):
     return False
 
 
+def rule_h(ctx):
+    R = "C03.h"
+    ctx.rule(R, "voxel volumes are brought to the data's resolution conservatively: every cv2.resize of integration.py is given interpolation=cv2.INTER_AREA "
+             "on every path -- the flag is read as a constant; a flag that is (on some branch) another OpenCV constant does not conserve the weighted "
+             "sum for mixed refinement / coarsening (nearest neighbour, linear and cubic sample instead of averaging)")
+    m = ctx.model
+    n = 0
+    for k in m.mod(MOD).classes.values():
+        for f in k.methods.values():
+            for c in ast.walk(f.node):
+                if isinstance(c, ast.Call) and norm(c.func) == "cv2.resize":
+                    n += 1
+                    ctx.instance(R)
+                    flag = next((kw.value for kw in c.keywords if kw.arg == "interpolation"), c.args[5] if len(c.args) > 5 else None)
+                    flag = expand(f.node, flag) if flag is not None else None
+                    leaves = []
+
+                    def walk(e):
+                        if isinstance(e, ast.IfExp):
+                            walk(e.body)
+                            walk(e.orelse)
+                        else:
+                            leaves.append(norm(e) if e is not None else "default (cv2.INTER_LINEAR)")
+                    walk(flag)
+                    consts = [x for x in leaves if x.startswith("cv2.INTER_") or x.startswith("default")]
+                    other = [x for x in consts if x != "cv2.INTER_AREA"]
+                    ctx.ob(R, f.qname, f"`{norm(c)[:50]}`: interpolation is cv2.INTER_AREA on every path", leaves == ["cv2.INTER_AREA"] * len(leaves),
+                           (f"the flag can be {other[0]}: not conservative -- the resized voxel volumes no longer sum to the geometry's volume when the data are finer along one axis and "
+                            "coarser along another" if other else f"flag {leaves} not found to be a constant"), c, evidence=bool(other))
+    ctx.floor(R, 1)
+
+
 def run(ctx):
+    rule_h(ctx)
     from . import c02 as _c02
     from .common import shared as _shared
 
